@@ -357,6 +357,10 @@ func (l *queryLog) readNextEntry(
 	e = &logEntry{}
 	l.decodeLogEntry(ctx, e, line)
 
+	// Report the time of the record even if it is skipped below, so that a
+	// search that stops at it can be continued from there.
+	ts = e.Time.UnixNano()
+
 	if l.isIgnored(e.QHost) {
 		return nil, ts, nil
 	}
@@ -379,7 +383,6 @@ func (l *queryLog) readNextEntry(
 		return nil, ts, nil
 	}
 
-	ts = e.Time.UnixNano()
 	if !params.match(e) {
 		return nil, ts, nil
 	}
